@@ -683,7 +683,7 @@ func (a *Act) frameCheck(st *State, env *SpecEnv, pos token.Pos, ri *ssa.Return)
 		return
 	}
 	for _, k := range sortedKeys(a.written) {
-		if strings.HasPrefix(k, "IT:") || k == "G:chancap" {
+		if strings.HasPrefix(k, "IT:") || k == "G:chancap" || k == "G:held" || k == "G:lockuses" {
 			continue
 		}
 		srt := vc.heapSorts[k]
